@@ -1,6 +1,7 @@
 From Coq Require Extraction ExtrOcamlBasic.
 From GV Require Import Common.Outcome Base.Grammar Base.Analyses LR.Automaton LR.Validator LR.Canon
-  LR.CloseMirror C02.Model C02.Lr1Model C02.LoopModel C02.InducedModel.
+  LR.CloseMirror C02.Model C02.Lr1Model C02.LoopModel C02.InducedModel C02.TextbookModel.
 Extraction Language OCaml.
 Extraction "model.ml" mkGrammar mkDump of_dump wf_grammar canon_lr1 lr1_check
-  weakly_compatible_mirror weakly_merge_mirror first_ref pager_mirror induced validS validC validE single_candidate.
+  weakly_compatible_mirror weakly_merge_mirror first_ref pager_mirror induced validS validC validE single_candidate
+  canon_tb lr1_textbook_check run lhs.
